@@ -1,0 +1,27 @@
+//go:build verif
+
+package replay
+
+import (
+	"github.com/influxdata/kapacitor/edge"
+)
+
+// Verification hooks for property C18 (replay fidelity): access to the recording file formats
+// (gzip stream recordings, zip batch archives) and to the service's own recording writers
+// without a running server. Add-only; compiled only with the build tag `verif`.
+
+// VerifFileSource returns the data source behind a `file://` recording URL for the given path.
+func VerifFileSource(path string) DataSource { return fileSource(path) }
+
+// VerifRecordingPrecision is the precision the service records and replays streams with.
+const VerifRecordingPrecision = precision
+
+// VerifSaveStream writes the points to the data source exactly as `record query -type stream` does.
+func VerifSaveStream(ds DataSource, points <-chan edge.PointMessage) error {
+	return (&Service{}).saveStreamQuery(ds, points, precision)
+}
+
+// VerifSaveBatches writes one archive entry per source exactly as `record batch` does.
+func VerifSaveBatches(ds DataSource, sources []<-chan edge.BufferedBatchMessage) error {
+	return (&Service{}).saveBatchRecording(ds, sources)
+}
